@@ -45,3 +45,24 @@ Example C08_example :
   let idx := [5;5;63;0;9;12;9;300;301;511] in
   leaf_table (build (parent 3) 4 1 false idx) = leaf_table (build (parent 3) 4 7 true idx).
 Proof. vm_compute. reflexivity. Qed.
+
+(* ---- the target/source executor (Spec/CorollariesTsm.v): the elementary interactions are a function of the two leaf tables ---- *)
+From Tbfmm Require Import Exec.ExecTsmDefs Exec.CounterDefs Spec.CorollariesTsm.
+
+Theorem C08_tsm_exec_refines_spec : forall d per H Bs Bt ms mt s src tgt idxs idxt, (0 < d)%nat -> 1 <= H ->
+  tree_ok (parent d) H Bs ms src -> tree_ok (parent d) H Bt mt tgt -> particles_ok idxs src -> particles_ok idxt tgt ->
+  Forall (fun i => 0 <= i < 2 ^ ((H - 1) * dz d)) idxs -> Forall (fun i => 0 <= i < 2 ^ ((H - 1) * dz d)) idxt ->
+  Permutation (elementary (execute_tsm d per s 63 src tgt)) (spec_all_tsm d per s H (leaf_table src) (leaf_table tgt)).
+Proof. exact tsm_exec_refines_spec. Qed.
+Print Assumptions C08_tsm_exec_refines_spec.
+
+Theorem C08_tsm_grouping_independent : forall d per H Bs1 ms1 Bt1 mt1 Bs2 ms2 Bt2 mt2 s src1 tgt1 src2 tgt2 idxs idxt,
+  (0 < d)%nat -> 1 <= H ->
+  tree_ok (parent d) H Bs1 ms1 src1 -> tree_ok (parent d) H Bt1 mt1 tgt1 ->
+  tree_ok (parent d) H Bs2 ms2 src2 -> tree_ok (parent d) H Bt2 mt2 tgt2 ->
+  particles_ok idxs src1 -> particles_ok idxt tgt1 -> particles_ok idxs src2 -> particles_ok idxt tgt2 ->
+  Forall (fun i => 0 <= i < 2 ^ ((H - 1) * dz d)) idxs -> Forall (fun i => 0 <= i < 2 ^ ((H - 1) * dz d)) idxt ->
+  leaf_table src1 = leaf_table src2 -> leaf_table tgt1 = leaf_table tgt2 ->
+  Permutation (elementary (execute_tsm d per s 63 src1 tgt1)) (elementary (execute_tsm d per s 63 src2 tgt2)).
+Proof. exact tsm_grouping_independent. Qed.
+Print Assumptions C08_tsm_grouping_independent.
